@@ -28,6 +28,12 @@ class Persistence:
         default=None,
         init=False,
     )
+    _save_lock: asyncio.Lock = field(
+        default_factory=asyncio.Lock,
+        init=False,
+        repr=False,
+        compare=False,
+    )
 
     async def load(self, path: str | None = None) -> None:
         """Load the stored data."""
@@ -56,16 +62,18 @@ class Persistence:
 
     async def save(self) -> None:
         """Save data."""
-        data = {}
-        node_schema = NodeSchema()
-        for node in self.nodes.values():
-            data[node.node_id] = node_schema.dump(node)
+        # Overlapping saves would interleave their writes to the same file.
+        async with self._save_lock:
+            data = {}
+            node_schema = NodeSchema()
+            for node in self.nodes.values():
+                data[node.node_id] = node_schema.dump(node)
 
-        try:
-            async with aiofiles.open(self.path, mode="w") as fil:
-                await fil.write(json.dumps(data, sort_keys=True, indent=2))
-        except OSError as err:
-            raise PersistenceWriteError(err) from err
+            try:
+                async with aiofiles.open(self.path, mode="w") as fil:
+                    await fil.write(json.dumps(data, sort_keys=True, indent=2))
+            except OSError as err:
+                raise PersistenceWriteError(err) from err
 
     async def start(self) -> None:
         """Start the scheduled saving of data."""
